@@ -25,6 +25,7 @@ func loadRepo(c *core.Ctx, extra ...string) *load.Prog {
 		return nil
 	}
 	roleInfo = p.Bebop().TypesInfo
+	discoverTokenAPI(p)
 	return p
 }
 
